@@ -105,11 +105,38 @@ fn seeded_plan(plan: Plan, tier: Tier, full: bool, depth: u32) -> Box<dyn Config
     Box::new(b)
 }
 
+/// Collision chains that reach the third and fourth group of the probe sequence (where the triangular sequence
+/// departs from a linear one), built through several growths; tombstones inside such chains.
+pub fn long_chain(plan: Plan, tier: Tier) -> Box<dyn Config> {
+    let mut c = MapCfg::new(plan, 62);
+    c.max_buckets = 128;
+    c.alphabet = Alphabet::core();
+    c.alphabet.shrink_to = vec![Shr::Len, Shr::CapPlus1];
+    c.alphabet.shrink_to_fit = true;
+    let depth = if tier == Tier::Quick { 1 } else { 2 };
+    let label = format!("{}-long-chain-d{}", c.label(), depth);
+    let mut b = BfsConfig::new(label, MapHarness::<TKey, TVal>::new(c), lim(tier, Some(depth)));
+    let ins = |n: u8| (0..n).map(MapOp::Insert).collect::<Vec<_>>();
+    let mut seeds = vec![ins(30), ins(57), ins(60)];
+    for removed in [3u8, 20, 40] {
+        let mut h = ins(60);
+        h.extend((0..removed).map(MapOp::Remove));
+        seeds.push(h);
+    }
+    let mut h = ins(60);
+    h.extend((0..60).filter(|i| i % 3 == 1).map(MapOp::Remove));
+    seeds.push(h);
+    b.seeds = seeds;
+    Box::new(b)
+}
+
 pub fn configs(tier: Tier) -> Vec<Box<dyn Config>> {
     let sse2 = super::width() == 16;
     let q = tier == Tier::Quick;
     let mut v: Vec<Box<dyn Config>> = Vec::new();
     v.push(Box::new(super::rehash::RehashGrammar { tier }));
+    v.push(long_chain(Plan::Zero, tier));
+    v.push(long_chain(Plan::Max, tier));
     v.push(closed_wrappers::<TKey, TVal>(Plan::Zero, if q { 9 } else { 12 }, tier));
     v.push(closed_wrappers::<PKey, PVal>(Plan::Cluster(2), if q { 6 } else { 8 }, tier));
     if q {
